@@ -4,6 +4,7 @@ import (
 	"bufio"
 	"bytes"
 	"context"
+	"encoding/binary"
 	"errors"
 	"fmt"
 	"io"
@@ -994,9 +995,14 @@ func (multi *MultiEpoch) processSlotTransactions(
 								}
 							}
 
-							idx := uint64(0) // nodes written before the position index existed have none
+							idx := uint64(0)
 							if txResp.Index != nil {
 								idx = *txResp.Index
+							} else if len(tx.Signatures) > 0 {
+								// nodes written before the position index existed have none: key them by
+								// signature, so that the transactions of one slot neither overwrite each
+								// other in the buffer nor repeat when several accounts return the same one
+								idx = binary.BigEndian.Uint64(tx.Signatures[0][:8])
 							}
 							buffer.add(txResp.Slot, idx, txResp)
 						}
